@@ -5,6 +5,7 @@ package main
 import (
 	"encoding/json"
 	"fmt"
+	"math/rand"
 	"os"
 
 	"github.com/goccmack/gocc/verifx/internal/camp"
@@ -46,6 +47,28 @@ func main() {
 	add("C01", "F3-d", "open", "", "regdef inside a repetition: with _y:'c' ['c' 'c']; w:'r' {_y}; the input rcc is not one token w", lexCase("C01", f3d, "rcc"))
 	f3e := []LexDef{reg("_x", Seq(Lit('a'), Lit('b'))), tok("v", Seq(Lit('q'), Rep(Seq(Lit('a'))), Ref("_x"), Lit('z')))}
 	add("C01", "F3-e", "open", "", "regdef after a repetition that shares its first character: with _x:'a' 'b'; v:'q' {'a'} _x 'z'; the input qaabz is rejected", lexCase("C01", f3e, "qaabz"))
+
+	// ---- F8 (fixed): canRecover at any dot position
+	nt := func(n string) Sym { return Sym{Kind: SNT, Name: n} }
+	tk := func(n string) Sym { return Sym{Kind: STok, Name: n} }
+	st := func(n string) Sym { return Sym{Kind: SStr, Name: n} }
+	f8 := &Grammar{NTs: []*NTDef{
+		{Head: "S", Alts: []SAlt{{Body: []Sym{nt("L")}}}},
+		{Head: "L", Alts: []SAlt{{Body: []Sym{nt("I"), tk("d"), nt("L")}}, {Body: []Sym{nt("I")}}}},
+		{Head: "I", Alts: []SAlt{{Body: []Sym{st("!")}}, {Err: true, Body: []Sym{tk("d")}}}},
+	}}
+	AssignActions(rand.New(rand.NewSource(1)), f8, 1)
+	add("C07", "F8", "fixed", "f948a4a", "states inside an error alternative were flagged as recovery states: a second error after 'error d' was not recovered although state 0 can shift error (tokens d ! ! d)",
+		camp.Witness{Kind: "parse", Grammar: f8, Toks: []string{"d", "!", "!", "d"}, FailAt: -1})
+	// ---- F7 (fixed): action.(shift) panic
+	f7 := &Grammar{NTs: []*NTDef{
+		{Head: "Prog", Alts: []SAlt{{Body: []Sym{nt("Stmts")}}}},
+		{Head: "Stmts", Alts: []SAlt{{Empty: true}, {Body: []Sym{nt("Stmts"), nt("Stmt")}}}},
+		{Head: "Stmt", Alts: []SAlt{{Body: []Sym{tk("b"), st(";")}}, {Err: true, Body: []Sym{st(")")}}}},
+	}}
+	AssignActions(rand.New(rand.NewSource(1)), f7, 1)
+	add("C07", "F7", "fixed", "426c6f1", "Parse panicked (action.(shift)) on the first syntax error when the entry for 'error' in the top state is a reduction (tokens: else-like stray token)",
+		camp.Witness{Kind: "parse", Grammar: f7, Toks: []string{")"}, FailAt: -1})
 
 	out := map[string]interface{}{"findings": fs}
 	var log []string
